@@ -422,7 +422,8 @@ pub mod implementations {
         let var = ctx.pop();
 
         let ret = if let Some(primitive) = var {
-            ReturnValue::Value(primitive)
+            // a function returns a value: `return xs[i]` must not hand out a view into `xs`
+            ReturnValue::Value(primitive.move_out_of_heap_primitive()?)
         } else {
             ReturnValue::NoValue
         };
